@@ -980,13 +980,13 @@ impl Transaction {
             return false;
         }
 
-        if self
-            .from
-            .iter()
-            .map(|slip| slip.utxoset_key)
-            .collect::<Vec<_>>()
+        let value_inputs = self.from.iter().filter(|slip| slip.amount > 0);
+        if value_inputs
+            .clone()
+            .map(|slip| slip.get_utxoset_key())
+            .collect::<AHashSet<_>>()
             .len()
-            != self.from.len()
+            != value_inputs.count()
         {
             error!("ERROR: transaction : {} has duplicate inputs", self);
             return false;
